@@ -85,6 +85,7 @@ class LineScheduler:
         self.finished = {}
         self.free = False
         self.events = []
+        self.grant_timeout = GRANT_TIMEOUT
 
     def _local(self, tid):
         def tracer(frame, event, arg):
@@ -167,7 +168,7 @@ class LineScheduler:
                 self.turn = s
                 before = self.count[s]
                 self.cv.notify_all()
-                end = time.time() + GRANT_TIMEOUT
+                end = time.time() + self.grant_timeout
                 # wait until the step was taken and the thread is at its next gate / done
                 while time.time() < end:
                     if self.count[s] > before and (self.at_gate[s] or self.finished[s] or self.count[s] >= self.region):
@@ -190,10 +191,12 @@ class LineScheduler:
 
 def _sched_job(job):
     """One schedule on two real threads (in a worker process: the owner record is per process)."""
-    sch, n = job
+    sch, n, *rest = job
     try:
         _reset_guard()
         ls = LineScheduler(_store_cls().__init__.__code__, n)
+        if rest:
+            ls.grant_timeout = rest[0]
         return ls.run(sch, body)
     except Exception as e:
         import traceback
@@ -393,14 +396,23 @@ def run(ctx: Ctx):
     sched_of = {}
     from .store_replay import pmap as _pmap
 
-    outs = _pmap(_sched_job, [(sch, n) for sch in schedules])
+    # StoreGuard.tla SlowThreads: a thread may stay between two of its steps for ANY length of time.  A few schedules
+    # - thread 1 takes j steps into the region, then thread 2 is given all its turns - are run once more with a thread
+    # that does not progress being waited for 1.4 s instead of 50 ms (what holds under the guard's lock must hold
+    # however long the holder stays there)
+    replay_gt = json.loads(Path(ctx.replay).read_text())['case'].get('grant_timeout') if ctx.replay else None
+    slow = [] if ctx.replay else [[a] * j + [b] * n + [a] * (n - j) for a, b in ((1, 2), (2, 1)) for j in range(1, n)][: (6 if ctx.quick else 40)]
+    jobs_s = [((sch, n, replay_gt) if replay_gt else (sch, n)) for sch in schedules] + [(sch, n, 1.4) for sch in slow]
+    n_fast = len(schedules)
+    schedules = schedules + slow
+    outs = _pmap(_sched_job, jobs_s)
     for i, (sch, out) in enumerate(zip(schedules, outs)):
         if isinstance(out, str):
             raise MachineryError('line scheduler worker failed: ' + out)
         results, events, applied, blocked = out
         name = f'sched-{i}'
         traces.append({'t': name, 'ev': events})
-        sched_of[name] = {'schedule': sch, 'applied': applied, 'results': results, 'blocked_grants': blocked, 'region': n}
+        sched_of[name] = {'schedule': sch, 'applied': applied, 'results': results, 'blocked_grants': blocked, 'region': n, **({'grant_timeout': 1.4} if (not ctx.replay and i >= n_fast) else ({'grant_timeout': replay_gt} if replay_gt else {}))}
         both_inside = any(sch[j] != sch[j + 1] for j in range(len(sch) - 1))
         ctx.case_done({'schedule': sch}, nontrivial=both_inside)
         ctx.sample({'schedule': sch, 'results': {str(k): v for k, v in results.items()}}, limit=3)
